@@ -36,6 +36,12 @@ pub struct Scenario {
     pub clean_stop: bool,
     pub wipe: bool,
     pub bystander: bool,
+    /// (needs the bystander) the primary dies while the joiner is away and the bystander takes over; the joiner comes back
+    /// to a primary that was a secondary when the operations it missed were made
+    pub primary_changes_while_away: bool,
+    /// everything the joiner knows was snapshotted before it stopped cleanly with its disk kept: its operation log is
+    /// valid at the restart, so it can (and on the unchanged tree does) ask for a since-a-time catch-up
+    pub leaves_with_valid_oplog: bool,
 }
 
 fn gen_ops(r: &mut Rng, n: usize, created: &mut BTreeSet<usize>) -> Vec<Op> {
@@ -64,7 +70,8 @@ pub fn gen_scenario(r: &mut Rng) -> Scenario {
     let cut2 = cut1 + r.below(total - cut1 + 1);
     let mut created = BTreeSet::new();
     let mut before = gen_ops(r, cut1, &mut created);
-    if r.chance(1, 2) {
+    let persisted = r.chance(1, 2) && !before.is_empty();
+    if persisted {
         // everything the joiner knows is persisted before it leaves (so that a clean stop keeps a usable oplog)
         let ds: Vec<usize> = created.iter().cloned().collect();
         for d in ds {
@@ -73,7 +80,9 @@ pub fn gen_scenario(r: &mut Rng) -> Scenario {
     }
     let away = gen_ops(r, cut2 - cut1, &mut created);
     let during = gen_ops(r, total - cut2, &mut created);
-    Scenario { before, away, during, clean_stop: r.chance(1, 2), wipe: r.chance(1, 4), bystander: r.chance(1, 3) }
+    let bystander = r.chance(1, 3);
+    let (clean_stop, wipe) = (r.chance(1, 2), r.chance(1, 4));
+    Scenario { before, away, during, clean_stop, wipe, bystander, primary_changes_while_away: bystander && r.chance(1, 2), leaves_with_valid_oplog: persisted && clean_stop && !wipe }
 }
 
 /// Directed scenarios: the joiner stops cleanly with everything persisted (valid oplog, so it asks for a since-a-time
@@ -111,7 +120,10 @@ pub fn directed_scenarios() -> Vec<Scenario> {
         let away: Vec<Op> = o.iter().map(|i| pool[*i].clone()).collect();
         let before = vec![Op::CreateDb(0), Op::Set(0, "k0".into(), 3), Op::Set(0, "k1".into(), 4), Op::Snapshot(0)];
         for during in [vec![], vec![Op::Set(0, "k1".into(), 5)]] {
-            out.push(Scenario { before: before.clone(), away: away.clone(), during, clean_stop: true, wipe: false, bystander: false });
+            out.push(Scenario { before: before.clone(), away: away.clone(), during: during.clone(), clean_stop: true, wipe: false, bystander: false, primary_changes_while_away: false, leaves_with_valid_oplog: true });
+            if out.len() % 3 == 0 {
+                out.push(Scenario { before: before.clone(), away: away.clone(), during, clean_stop: true, wipe: false, bystander: true, primary_changes_while_away: true, leaves_with_valid_oplog: true });
+            }
         }
     }
     out
@@ -129,12 +141,16 @@ fn render(op: &Op) -> (usize, String) {
 
 /// Issues operations through the admin session on the primary (selecting the database first).
 fn issue(c: &mut Cluster, ops: &[Op], wait: bool, nodes: usize) {
+    issue_as(c, "p", ops, wait, nodes)
+}
+
+fn issue_as(c: &mut Cluster, session: &str, ops: &[Op], wait: bool, nodes: usize) {
     for op in ops {
         let (d, line) = render(op);
         if !matches!(op, Op::CreateDb(_) | Op::Snapshot(_)) {
-            c.send("p", &format!("use-db {} tok-{}", DBS[d].0, DBS[d].0));
+            c.send(session, &format!("use-db {} tok-{}", DBS[d].0, DBS[d].0));
         }
-        c.send("p", &line);
+        c.send(session, &line);
         if wait {
             let _ = c.run_until_quiet();
             if let Op::Snapshot(_) = op {
@@ -174,6 +190,8 @@ pub struct Stats {
     pub full_syncs: u64,
     pub incremental_syncs: u64,
     pub inconclusive: u64,
+    pub primary_changes: u64,
+    pub failovers_not_clean: u64,
     pub samples: Vec<serde_json::Value>,
 }
 
@@ -206,14 +224,35 @@ pub fn run_scenario(sc: &Scenario, seed0: u64, v: &Verdicts, st: &Mutex<Stats>) 
         c.shutdown();
         return;
     }
+    // optionally the primary is replaced while the joiner is away
+    let mut prim_idx = 0usize;
+    let mut prim_session = "p";
+    if sc.primary_changes_while_away && n == 3 {
+        c.kill_node(0);
+        let q = c.run_until_quiet();
+        let roles = c.roles();
+        if !matches!(q, Outcome::Quiet(_)) || roles[2].as_deref() != Some("Primary") || !c.panics().is_empty() {
+            // the fail-over itself is C07's subject
+            st.lock().unwrap().failovers_not_clean += 1;
+            c.shutdown();
+            return;
+        }
+        prim_idx = 2;
+        prim_session = "p2";
+        c.open_session("p2", 2);
+        c.call("p2", "auth admin pwd");
+        st.lock().unwrap().primary_changes += 1;
+    }
     // rejoin, with the during-sync operations queued at the same time
     let before_links = c.link_log().len();
     let all: Vec<usize> = (0..n).collect();
     c.start_node(1, 10_000, &all);
-    issue(&mut c, &sc.during, false, n);
+    issue_as(&mut c, prim_session, &sc.during, false, n);
     let q3 = c.run_until_quiet();
     for i in 0..n {
-        c.declutter(i);
+        if c.alive(i) {
+            c.declutter(i);
+        }
     }
     let q4 = c.run_until_quiet();
     // in which part of the history was a (database, key) last written?
@@ -243,22 +282,22 @@ pub fn run_scenario(sc: &Scenario, seed0: u64, v: &Verdicts, st: &Mutex<Stats>) 
         problems.push(("service-thread-panicked".into(), c.panics().join(" | ")));
     }
     let roles = c.roles();
-    if roles[0].as_deref() != Some("Primary") || roles[1].as_deref() != Some("Secoundary") {
+    if roles[prim_idx].as_deref() != Some("Primary") || roles[1].as_deref() != Some("Secoundary") {
         problems.push(("roles-after-rejoin".into(), format!("{:?}", roles)));
     }
     // which kind of sync did the joiner ask for?
     let links = c.link_log();
-    let since: Option<u64> = links[before_links..].iter().find(|l| l.1 == 1 && l.2 == 0 && l.3.starts_with("replicate-since ")).and_then(|l| l.3.rsplit(' ').next().and_then(|x| x.parse().ok()));
+    let since: Option<u64> = links[before_links..].iter().find(|l| l.1 == 1 && l.2 == prim_idx && l.3.starts_with("replicate-since ")).and_then(|l| l.3.rsplit(' ').next().and_then(|x| x.parse().ok()));
     let sync_kind = match since {
         Some(0) => "full",
         Some(_) => "incremental",
         None => "none-requested",
     };
-    let prim = snapshot_of(&c, 0);
+    let prim = snapshot_of(&c, prim_idx);
     let join = snapshot_of(&c, 1);
     // ---- round-trip monitor: raw catch-up lines (not rp-wrapped) from the primary to the joiner
     let mut sync_lines = 0u64;
-    for l in links[before_links..].iter().filter(|l| l.1 == 0 && l.2 == 1) {
+    for l in links[before_links..].iter().filter(|l| l.1 == prim_idx && l.2 == 1) {
         if !l.3.starts_with("replicate ") {
             continue;
         }
@@ -318,7 +357,7 @@ pub fn run_scenario(sc: &Scenario, seed0: u64, v: &Verdicts, st: &Mutex<Stats>) 
             problems.push(("joiner-has-a-database-the-primary-does-not".into(), db.clone()));
         }
     }
-    let shape = format!("{}|{}|{}|b{}a{}d{}|{}", sync_kind, if sc.clean_stop { "clean" } else { "kill" }, if sc.wipe { "wiped" } else { "disk" }, sc.before.len(), sc.away.len(), sc.during.len(), n);
+    let shape = format!("{}{}|{}|{}|b{}a{}d{}|{}", sync_kind, if prim_idx != 0 { "/new-primary" } else { "" }, if sc.clean_stop { "clean" } else { "kill" }, if sc.wipe { "wiped" } else { "disk" }, sc.before.len(), sc.away.len(), sc.during.len(), n);
     {
         let mut s = st.lock().unwrap();
         s.runs += 1;
@@ -331,7 +370,7 @@ pub fn run_scenario(sc: &Scenario, seed0: u64, v: &Verdicts, st: &Mutex<Stats>) 
             _ => {}
         }
         if s.samples.len() < 3 && sync_lines > 1 {
-            s.samples.push(json!({"scenario": format!("{:?}", sc), "sync": sync_kind, "lines_primary_to_joiner": links[before_links..].iter().filter(|l| l.1 == 0 && l.2 == 1).map(|l| l.3.clone()).collect::<Vec<_>>()}));
+            s.samples.push(json!({"scenario": format!("{:?}", sc), "sync": sync_kind, "lines_primary_to_joiner": links[before_links..].iter().filter(|l| l.1 == prim_idx && l.2 == 1).map(|l| l.3.clone()).collect::<Vec<_>>()}));
         }
     }
     let mut seen = BTreeSet::new();
@@ -350,11 +389,19 @@ pub fn run_scenario(sc: &Scenario, seed0: u64, v: &Verdicts, st: &Mutex<Stats>) 
                 family.truncate(p);
             }
         }
-        let sig = json!({"check": "resync", "sync": sync_kind, "operations_during_sync": concurrent, "problem": family});
+        // whether the primary changed while the joiner was away is part of the replay, not of the signature: the known
+        // catch-up format defects are the same code on any primary
+        // a joiner that left with a valid operation log and still went through a full sync is its own situation: the known
+        // weaknesses of the full sync (it never removes, ...) are not excused there
+        let sig = if sc.leaves_with_valid_oplog && sync_kind == "full" {
+            json!({"check": "resync", "sync": sync_kind, "operations_during_sync": concurrent, "problem": family, "joiner_left_with_a_valid_operation_log": true})
+        } else {
+            json!({"check": "resync", "sync": sync_kind, "operations_during_sync": concurrent, "problem": family})
+        };
         if !seen.insert(sig.to_string()) {
             continue;
         }
-        v.report(sig, json!({"scenario": format!("{:?}", sc), "seed": seed0, "detail": detail, "primary": prim, "joiner": join,
+        v.report(sig, json!({"scenario": format!("{:?}", sc), "seed": seed0, "primary_changed_while_away": prim_idx != 0, "detail": detail, "primary": prim, "joiner": join,
             "lines_since_rejoin": links[before_links..].iter().map(|l| format!("[{}] n{}->n{} {}", l.0, l.1, l.2, l.3)).collect::<Vec<_>>(), "trace_tail": c.trace().iter().rev().take(25).rev().cloned().collect::<Vec<_>>()}));
     }
     c.shutdown();
@@ -366,7 +413,7 @@ pub fn run(tier: &str) -> i32 {
     let thorough = tier == "thorough";
     let v = Verdicts::load("C05");
     let mut ev = Evidence::new("C05", tier, "exploration");
-    let st = Mutex::new(Stats { runs: 0, shapes: BTreeSet::new(), sync_lines: 0, keys_compared: 0, full_syncs: 0, incremental_syncs: 0, inconclusive: 0, samples: vec![] });
+    let st = Mutex::new(Stats { runs: 0, shapes: BTreeSet::new(), sync_lines: 0, keys_compared: 0, full_syncs: 0, incremental_syncs: 0, inconclusive: 0, primary_changes: 0, failovers_not_clean: 0, samples: vec![] });
     let directed = directed_scenarios();
     let n_directed = if thorough { directed.len() } else { 80 };
     let directed_stride = (directed.len() / n_directed).max(1);
@@ -394,6 +441,8 @@ pub fn run(tier: &str) -> i32 {
     ev.distinct_nontrivial = s.shapes.len() as u64;
     ev.rule = format!("{} simulated-cluster runs ({} of them directed: clean stop with everything persisted, then every order of 3-4 of {{update in an old database, create a new database, update another key of the old database, update in the new database, remove in the old database}} while away, with and without a write racing the synchronisation; the rest seeded random): primary history of 1-10 operations (create-db with none/newer/arbiter strategy, set with values from {{one, 'two words', '9 lives', '', '  padded', non-ASCII}}, remove, increment, snapshot) over up to 3 databases, split at two seeded points into before-departure / while-away / during-sync; the joiner leaves by clean stop (valid oplog) or kill, optionally with its disk wiped, optionally with a third node watching; distinct_nontrivial = distinct (sync kind the joiner requested, departure, disk, split sizes, cluster size); + {} free-running attempts (real replication loop and supervisor on their own threads, 3 writer sessions on their own keys while the supervisor serves a full or since-a-time catch-up): the stream sent to the secondary must end, for every key, with the value the primary ended with", n_runs, n_directed, race.attempts);
     ev.samples = s.samples.clone();
+    ev.set("runs_in_which_the_primary_changed_while_the_joiner_was_away", json!(s.primary_changes));
+    ev.set("failovers_that_did_not_settle_cleanly_and_were_not_used", json!(s.failovers_not_clean));
     ev.set("full_syncs", json!(s.full_syncs));
     ev.set("incremental_syncs", json!(s.incremental_syncs));
     ev.set("catch_up_lines_round_tripped", json!(s.sync_lines));
